@@ -83,8 +83,17 @@ DstuField(f) == LET t == PAdd(PAdd(PMonomial(f[1]), PMonomial(f[2])), POne)
                 IN IF f[3] = 0 THEN t ELSE PAdd(PAdd(t, PMonomial(f[3])), PMonomial(f[4]))
 POfOct(o) == PStrict([i \in 1..((Len(o) + 1) \div 2) |-> o[2 * i - 1] + (IF 2 * i <= Len(o) THEN 256 * o[2 * i] ELSE 0)])
 PToOct(a, n) == PStrict([j \in 1..n |-> LET w == PGet(a, (j + 1) \div 2) IN IF j % 2 = 1 THEN w % 256 ELSE w \div 256])
-GMul(a, b, F) == PMulMod(a, b, F)
-GSqr(a, F) == PMulMod(a, a, F)
+\* reduction modulo the sparse F = x^m + sum x^k: x^m = sum x^k, applied to the whole high part at once (a few rounds),
+\* finished by the generic remainder (which returns at once when the degree is already below m); = PMod (anchored)
+LowExps(F) == SelectSeq(PRng(0, PDeg(F) - 1), LAMBDA i : PBit(F, i) = 1)
+GRed(a, F) ==
+  LET m == PDeg(F)
+      ks == LowExps(F)
+      step(x, i) == IF PDeg(x) < m THEN x
+                    ELSE LET H == PShr(x, m) IN PNorm(FoldLeft(LAMBDA acc, k : PAdd(acc, PShl(H, k)), PTrunc(x, m), ks))
+  IN PMod(FoldLeft(step, PNorm(a), <<1, 2, 3>>), F)
+GMul(a, b, F) == GRed(PMul(a, b), F)
+GSqr(a, F) == GRed(PMul(a, a), F)
 GInv(a, F) == PInvMod(a, F)
 GDiv(a, b, F) == PMulMod(a, PInvMod(b, F), F)
 GEq(a, b) == PEq(a, b)
